@@ -18,14 +18,15 @@ Qed.
        to true are exactly the values the software run saw, in program order. *)
 Theorem elab_correct_main : forall (p : block) (n0 : nat) (inp : list bv) (E : env) (R : list rdval),
   1 <= n0 ->
+  no_bare_else_if p = true ->
   run_prog inp p = Some (E, R) ->
   let st := elab_prog n0 p in
   let vs := eval_all inp (eG st) in
   sig_values vs (eSigs st) = E /\ live_reads vs (eReads st) = R.
 Proof.
-  intros p n0 inp E R Hn Hrun st vs.
+  intros p n0 inp E R Hn Hok Hrun st vs.
   destruct (all_ok inp) as (_ & HPb & _).
-  destruct (HPb p (init_st n0) (WF_init n0 Hn)) as (W & F & _ & PL).
+  destruct (HPb p Hok (init_st n0) (WF_init n0 Hn)) as (W & F & _ & PL).
   destruct (PL [] E R I (Forall2_nil _) Hrun) as [HR Hrd].
   split.
   - apply rel_sig_values. exact HR.
@@ -34,12 +35,12 @@ Qed.
 
 (* the same, variable by variable *)
 Theorem elab_correct_signal_main : forall p n0 inp E R x v,
-  1 <= n0 -> run_prog inp p = Some (E, R) -> lookup x E = Some v ->
+  1 <= n0 -> no_bare_else_if p = true -> run_prog inp p = Some (E, R) -> lookup x E = Some v ->
   exists r, lookup x (eSigs (elab_prog n0 p)) = Some r /\
             getv (eval_all inp (eG (elab_prog n0 p))) (sr_drv r) = v.
 Proof.
-  intros p n0 inp E R x v Hn Hrun Hl.
-  destruct (elab_correct_main p n0 inp E R Hn Hrun) as [HS _].
+  intros p n0 inp E R x v Hn Hok Hrun Hl.
+  destruct (elab_correct_main p n0 inp E R Hn Hok Hrun) as [HS _].
   revert Hl. rewrite <- HS. generalize (eSigs (elab_prog n0 p)). intro S.
   induction S as [|[y r] S IH]; simpl; [discriminate|].
   destruct (Nat.eqb x y).
@@ -58,6 +59,30 @@ Theorem elab_needs_positive_ids_main :
     sig_values (eval_all [[B0]] (eG (elab_prog 0 id0_prog))) (eSigs (elab_prog 0 id0_prog)) <> E.
 Proof.
   exists [(0, [B0])], []. split; [reflexivity|]. vm_compute. discriminate.
+Qed.
+
+(* REFUTED for the unrestricted statement: `IF (b) x = 1; ELSE IF (b) x = 2; ELSE x = 3;` with the
+   SAME Bit variable b in both conditions.  The ELSE destructor decides "a nested scope changed
+   m_lastCondition" by comparing ports (ConditionalScope.cpp: m_lastConditionOnEntry != m_lastCondition);
+   here both are b's port, so the final ELSE gets the condition NOT(NOT b) = b.
+   Software: x = 1 for b = 1, x = 3 for b = 0.  Circuit: x = 3 for b = 1, x = 0 for b = 0
+   (confirmed against the real library, see the report / corpus/C05/else_if_same_condition.txt). *)
+Definition same_cond_prog : block :=
+  block_of [Decl 0 true (EIn 0);
+            Decl 1 false (EConst (bv_of_N 2 0));
+            If (ESig 0) (block_of [Assign 1 [] (EConst (bv_of_N 2 1))])
+               (CElseSp (ESig 0) (block_of [Assign 1 [] (EConst (bv_of_N 2 2))])
+                  (CElse (block_of [Assign 1 [] (EConst (bv_of_N 2 3))])))].
+
+Theorem elab_else_if_same_condition_refuted_main :
+  no_bare_else_if same_cond_prog = false /\
+  (forall b, exists E,
+     run_prog [[of_bool b]] same_cond_prog = Some (E, []) /\
+     lookup 1 E = Some (bv_of_N 2 (if b then 1 else 3)) /\
+     lookup 1 (sig_values (eval_all [[of_bool b]] (eG (elab_prog 1 same_cond_prog))) (eSigs (elab_prog 1 same_cond_prog)))
+       = Some (bv_of_N 2 (if b then 3 else 0))).
+Proof.
+  split; [reflexivity|]. intros [|]; eexists; repeat split; vm_compute; reflexivity.
 Qed.
 
 (* ---- the dynamic index semantics used by the interpreter is the expected one ---- *)
